@@ -342,7 +342,10 @@ mk_name(VDATA *vs, char *field)
 {
     H4V_ND(int32, nlen);
     H4V_ND(int, name_null);
-    H4V_ASSUME(nlen >= 0 && nlen <= 2 * VSNAMELENMAX);
+#ifndef NLEN_MAX
+#define NLEN_MAX (2 * VSNAMELENMAX)
+#endif
+    H4V_ASSUME(nlen >= 0 && nlen <= NLEN_MAX);
     int32 la = nlen < 64 ? nlen : 64, lb = nlen - la;
     H4V_ND_BUF(uint8, nm_a, la, 64);
     H4V_ND_BUF(uint8, nm_b, lb, 64);
